@@ -3,6 +3,8 @@ from pyvc.verify import (contract, Contract, Exc, INT_, BOOL_, STR_, BYTES_, JSO
 from spec.device import *     # noqa: ghost schema, classify, ghost_step ...
 import spec.btc               # noqa: A-BTC externals
 import spec.fs                # noqa: A-FS externals
+import spec.rlp_ext           # noqa: A-RLP / A-KECCAK externals
+import spec.sorting           # noqa: sorted / map over JSON lists
 import spec.server_io         # noqa: request line / json / reply socket
 
 DONGLE = OBJ("ledger.hsm2dongle:HSM2Dongle", logger=OPAQUE("logger"), debug=BOOL_,
